@@ -60,10 +60,15 @@ def run(ctx):
                             ctx.violation(f"{f}() differs between two builds of the same sources (dependency order `{modes[0]}` vs `{modes[k]}`)",
                                           {"items": prog["items"], "probe": pr["ty"], "function": f, "orders": [modes[0], modes[k]]},
                                           {"a": ref.get(f), "b": cur.get(f)})
+    hows = [["to", "env", "to"][k % 3] for k in range(len(trees))]
+    def comparable(t, k):
+        # files that escape the export directory (`export_to = "../up/.."`) get import paths relative to the DEFAULT directory (C03 finding):
+        # they legitimately differ between entry points, which are different configurations; compare them only between like runs
+        return t if hows[k] == hows[0] else {p: f for p, f in t.items() if p != "up"}
     for k in range(1, len(trees)):
-        if trees[k] != trees[0]:
+        if comparable(trees[k], k) != comparable(trees[0], k):
             diff = [(p, f) for p in set(trees[0]) | set(trees[k]) for f in set(trees[0].get(p, {})) | set(trees[k].get(p, {}))
-                    if trees[0].get(p, {}).get(f) != trees[k].get(p, {}).get(f)]
+                    if trees[0].get(p, {}).get(f) != trees[k].get(p, {}).get(f) and (hows[k] == hows[0] or p != "up")]
             fails += 1
             p, f = diff[0]
             pi = int(p[1:]) if p.startswith("p") and p[1:].isdigit() else None
@@ -84,6 +89,28 @@ def run(ctx):
             if uni.tree_of(r) != t0:
                 fails += 1
                 ctx.violation("the exported directory depends on the order in which the roots are exported", {"order_a": orders[0], "order_b": o}, {})
+    # different numbers of test threads: the same types exported into one file sequentially (1 thread) and from N concurrent threads
+    from props import c05
+    hb = vlib.build_hookbin(ctx)
+    trounds = 0
+    if hb:
+        c05.NOTE = vlib.run_real(hb, [{"op": "consts"}])[0]["ok"]["NOTE"]
+        if not hasattr(ctx, "rng"):
+            ctx.rng = random.Random(ctx.seed * 17 + 4)
+        for gi, gens in enumerate(c05.make_sets(ctx)[:2]):
+            big = gens + [{"name": g["name"] + "Y", "text": g["text"].replace("export type " + g["name"], "export type " + g["name"] + "Y")} for g in gens]
+            troot = os.path.join(vlib.SCRATCH, "c13", "t")
+            seq = vlib.run_real(hb, [{"op": "hist", "root": troot, "steps": [{"k": "mkdir", "p": "$ROOT/out"}] + [{"k": "eam", "p": "$ROOT/out/shared.ts", "name": g["name"], "text": g["text"]} for g in big]}])[0]
+            seq_file = c05.final_file(seq)
+            rounds = 12 if ctx.quick else 200
+            thr = vlib.run_real(hb, [{"op": "threads", "root": troot, "rounds": rounds, "gens": [{"name": g["name"], "text": g["text"]} for g in big]}])[0]
+            badr = [x for x in thr.get("ok", []) if not x["ok"] or x["file"] != seq_file]
+            trounds += rounds
+            if badr or "ok" not in thr or seq_file is None:
+                fails += 1
+                ctx.violation("the file written by N concurrent test threads differs from the file written by one thread",
+                              {"gens": big, "threads": len(big)}, {"one_thread": seq_file, "n_threads": badr[0]["file"] if badr else thr, "bad_rounds": len(badr), "rounds": rounds})
+    ctx.stream("one thread vs N threads", trounds, 2, "12-20 types exported into one file sequentially and from as many barrier-released threads (real mutex, real scheduler); bytes must be identical in every round", [], {})
     nprobes = sum(len(p["probes"]) for p in programs)
     ctx.stream("independent builds with injected / natural dependency orders; exports in different orders", len(modes) * nprobes, nprobes,
                f"{n} corpus programs compiled {len(modes)} times (TS_RS_VERIF_DEP_ORDER = sorted / reversed / seed:k through the cfg hook, and plain rebuilds = fresh macro processes with "
